@@ -76,6 +76,12 @@ pub fn handle(st: &mut BuilderState, k: &mut KkcState, op: &str, arg: &str) -> O
             let t = if which == "std" { &d.standard_trie } else { &d.ancillary_trie };
             if t.search(&key, &|_, _| {}).is_some() { "yes".into() } else { "no".into() }
         }
+        // bstruct std|anc: the complete base/check/free state of a loaded trie (same format as `tdump`)
+        "bstruct" => {
+            let d = k.dic.as_ref()?;
+            let t = if arg.trim() == "std" { &d.standard_trie } else { &d.ancillary_trie };
+            format!("ok {}", crate::trie_ops::dump(t))
+        }
         "btankan" => {
             let t = st.tankan.as_ref()?;
             let v = kkc::get_tankan_candidates(&parse_cps(arg), t);
